@@ -15,7 +15,7 @@ type Timer struct {
 	when   rt.Duration
 	seq    int
 	idx    int // index in heap, -1 when not pending
-	site   string
+	site   site
 	wakeT  *Thread // Sleep
 	fired  bool
 	vc     vclock
@@ -72,12 +72,12 @@ func (s *sched) fireTimer() {
 	s.res.Points = append(s.res.Points, Point{N: 1, Kind: 'T'})
 	s.res.Choices = append(s.res.Choices, 0)
 	if s.cfg.Verbose {
-		s.tracef("timer fires (%s)", t.site)
+		s.tracef("timer fires (%s)", t.site.String())
 	}
 	switch {
 	case t.f != nil:
 		f := t.f
-		nt := s.newThread("timer:" + t.site)
+		nt := s.newThread("timer:" + t.site.Func())
 		nt.vc = t.vc.clone()
 		nt.op = &op{kind: "start", enabled: func() bool { return true }}
 		go func() {
@@ -101,7 +101,8 @@ func (s *sched) fireTimer() {
 
 // NewTimer replaces time.NewTimer.
 func NewTimer(d rt.Duration) *Timer {
-	t := &Timer{idx: -1, site: callerSite(2)}
+	t := &Timer{idx: -1}
+	t.site.record(2)
 	if S == nil {
 		panic("vsched: timer created outside an execution")
 	}
@@ -115,7 +116,8 @@ func NewTimer(d rt.Duration) *Timer {
 
 // After replaces time.After.
 func After(d rt.Duration) *Chan[rt.Time] {
-	t := &Timer{idx: -1, site: callerSite(2)}
+	t := &Timer{idx: -1}
+	t.site.record(2)
 	if S == nil {
 		panic("vsched: timer created outside an execution")
 	}
@@ -129,7 +131,8 @@ func After(d rt.Duration) *Chan[rt.Time] {
 
 // AfterFunc replaces time.AfterFunc.
 func AfterFunc(d rt.Duration, f func()) *Timer {
-	t := &Timer{idx: -1, f: f, site: callerSite(2)}
+	t := &Timer{idx: -1, f: f}
+	t.site.record(2)
 	if S == nil {
 		panic("vsched: timer created outside an execution")
 	}
